@@ -1,4 +1,6 @@
 import CedarVerif.Cedar.Ext
+import CedarVerif.Lemmas.ExtDecimal
+import CedarVerif.Lemmas.ExtDuration
 /-
 C07 — Extension types (decimal, ip, datetime, duration) compute exact results.
 Property theorems about the mirrors in `Cedar/Ext.lean`.
@@ -24,5 +26,164 @@ theorem ext_eq_by_value :
     Duration.parse "1d" = Duration.parse "24h" ∧
     Datetime.parse "2024-01-01T00:00:00+0100" = Datetime.parse "2023-12-31T23:00:00Z" := by
   refine ⟨by decide +kernel, by decide +kernel, by decide +kernel, by decide +kernel, by decide +kernel⟩
+
+/-! ## decimal -/
+
+/-- **decimal, accepted language and exact value.** For a literal of the declarative language
+    (optional `-`, ≥ 1 ASCII digits, `.`, 1..4 ASCII digits) `Decimal.parse` returns exactly the scaled value
+    `± (ip·10⁴ + fp·10^(4-|fp|))` when it is an i64, and fails otherwise. -/
+theorem decimal_parse_exact (neg : Bool) (ip fp : List Char) (hwf : Decimal.WF ip fp) (h4 : fp.length ≤ 4) :
+    Decimal.parse (String.ofList (Decimal.render neg ip fp)) =
+      if inI64 (Decimal.exact neg ip fp) then some (Decimal.exact neg ip fp) else none := by
+  have hs := (Decimal.split_iff (Decimal.render neg ip fp) neg ip fp).mpr ⟨rfl, hwf⟩
+  obtain ⟨_, h2, _, h5⟩ := hwf
+  obtain ⟨b1, b2⟩ := Decimal.fp_bound fp h2 h4 h5
+  simp only [Decimal.parse, String.toList_ofList, hs]
+  exact Decimal.arith_exact neg _ _ _ h4 b1 b2
+
+/-- more than four fraction digits are rejected (`TooManyDigits`), whatever the value -/
+theorem decimal_parse_tooManyDigits (neg : Bool) (ip fp : List Char) (hwf : Decimal.WF ip fp) (h4 : 4 < fp.length) :
+    Decimal.parse (String.ofList (Decimal.render neg ip fp)) = none := by
+  have hs := (Decimal.split_iff (Decimal.render neg ip fp) neg ip fp).mpr ⟨rfl, hwf⟩
+  simp only [Decimal.parse, String.toList_ofList, hs]
+  exact Decimal.arith_tooManyDigits neg _ _ _ h4
+
+/-- **decimal, both directions.** `parse s = some v` iff `s` is a literal of the declarative language with at
+    most four fraction digits, `v` is its exact scaled value and `v` is an i64. In particular every string outside
+    the language (no dot, empty integer or fraction part, non-digit, trailing garbage, > 4 fraction digits) and
+    every out-of-range literal gives `none`. -/
+theorem decimal_parse_some_iff (s : String) (v : Int) :
+    Decimal.parse s = some v ↔
+      ∃ neg ip fp, s.toList = Decimal.render neg ip fp ∧ Decimal.WF ip fp ∧ fp.length ≤ 4 ∧
+        v = Decimal.exact neg ip fp ∧ inI64 v = true := by
+  constructor
+  · intro h
+    unfold Decimal.parse at h
+    split at h
+    · cases h
+    · rename_i neg ip fp hs
+      obtain ⟨hr, hwf⟩ := (Decimal.split_iff _ _ _ _).mp hs
+      by_cases h4 : fp.length ≤ 4
+      · obtain ⟨b1, b2⟩ := Decimal.fp_bound fp hwf.2.1 h4 hwf.2.2.2
+        have ha : Decimal.arith neg (natOfDigits ip) (natOfDigits fp) fp.length =
+            if inI64 (Decimal.exact neg ip fp) then some (Decimal.exact neg ip fp) else none :=
+          Decimal.arith_exact neg _ _ _ h4 b1 b2
+        rw [ha] at h
+        by_cases hin : inI64 (Decimal.exact neg ip fp) = true
+        · rw [if_pos hin] at h; cases h
+          exact ⟨neg, ip, fp, hr, hwf, h4, rfl, hin⟩
+        · rw [if_neg hin] at h; cases h
+      · rw [Decimal.arith_tooManyDigits neg _ _ _ (by omega)] at h; cases h
+  · rintro ⟨neg, ip, fp, hr, hwf, h4, rfl, hin⟩
+    have := decimal_parse_exact neg ip fp hwf h4
+    rw [← hr, String.ofList_toList, hin] at this
+    simpa using this
+
+/-- strings outside the declarative language are rejected -/
+theorem decimal_parse_none_of_not_lang (s : String)
+    (h : ¬ ∃ neg ip fp, s.toList = Decimal.render neg ip fp ∧ Decimal.WF ip fp ∧ fp.length ≤ 4) :
+    Decimal.parse s = none := by
+  cases hp : Decimal.parse s with
+  | none => rfl
+  | some v =>
+    obtain ⟨neg, ip, fp, a, b, c, _⟩ := (decimal_parse_some_iff s v).mp hp
+    exact absurd ⟨neg, ip, fp, a, b, c⟩ h
+
+-- non-vacuity: the largest and smallest decimals, one beyond, and near-miss strings
+example : Decimal.parse "922337203685477.5807" = some 9223372036854775807 ∧
+    Decimal.parse "-922337203685477.5808" = some (-9223372036854775808) ∧
+    Decimal.parse "922337203685477.5808" = none ∧ Decimal.parse "1.23456" = none ∧
+    Decimal.parse "1." = none ∧ Decimal.parse ".5" = none ∧ Decimal.parse "12" = none ∧
+    Decimal.parse "1.2x" = none ∧ Decimal.parse "-0.5" = some (-5000) := by decide +kernel
+example : Decimal.WF "12".toList "34".toList ∧ Decimal.exact true "12".toList "34".toList = -123400 ∧
+    String.ofList (Decimal.render true "12".toList "34".toList) = "-12.34" := by decide +kernel
+
+/-! ## duration -/
+
+/-- exact value (milliseconds) of the duration literal with the given digit strings (absent component = 0) -/
+def durationExact (neg : Bool) (D H M S MS : Option (List Char)) : Int :=
+  Duration.exact neg (Duration.cval D) (Duration.cval H) (Duration.cval M) (Duration.cval S) (Duration.cval MS)
+
+/-- **duration, accepted language and exact value.** For a literal `-?(\d+d)?(\d+h)?(\d+m)?(\d+s)?(\d+ms)?`
+    with at least one component, `Duration.parse` returns exactly `± (ms + 1000 s + 60000 m + 3600000 h + 86400000 d)`
+    when that is an i64 and fails otherwise (this subsumes the u64 overflow of a single component, see
+    `duration_parse_component_overflow`). -/
+theorem duration_parse_exact (neg : Bool) (D H M S MS : Option (List Char)) (hwf : Duration.WF D H M S MS) :
+    Duration.parse (String.ofList (Duration.render neg D H M S MS)) =
+      if inI64 (durationExact neg D H M S MS) then some (durationExact neg D H M S MS) else none := by
+  have hs := (Duration.split_iff (Duration.render neg D H M S MS) neg _ _ _ _ _).mpr
+    ⟨D, H, M, S, MS, rfl, hwf, rfl, rfl, rfl, rfl, rfl⟩
+  simp only [Duration.parse, String.toList_ofList, hs]
+  cases ha : Duration.arith neg (D.map natOfDigits) (H.map natOfDigits) (M.map natOfDigits) (S.map natOfDigits)
+      (MS.map natOfDigits) with
+  | some v =>
+    obtain ⟨rfl, hv⟩ := (Duration.arith_eq_some _ _ _ _ _ _ _).mp ha
+    have : inI64 (durationExact neg D H M S MS) = true := (inI64_iff _).mpr hv
+    rw [this]; rfl
+  | none =>
+    cases hin : inI64 (durationExact neg D H M S MS) with
+    | false => rfl
+    | true =>
+      have := (Duration.arith_eq_some neg (D.map natOfDigits) (H.map natOfDigits) (M.map natOfDigits)
+        (S.map natOfDigits) (MS.map natOfDigits) (durationExact neg D H M S MS)).mpr ⟨rfl, (inI64_iff _).mp hin⟩
+      rw [ha] at this; cases this
+
+/-- **duration, both directions.** `parse s = some v` iff `s` is a literal of the declarative language, `v` its exact
+    value and `v` an i64. Everything else (empty string, `-`, components out of order or repeated, missing digits,
+    unknown units, trailing garbage, overflow) gives `none`. -/
+theorem duration_parse_some_iff (s : String) (v : Int) :
+    Duration.parse s = some v ↔
+      ∃ neg D H M S MS, s.toList = Duration.render neg D H M S MS ∧ Duration.WF D H M S MS ∧
+        v = durationExact neg D H M S MS ∧ inI64 v = true := by
+  constructor
+  · intro h
+    unfold Duration.parse at h
+    split at h
+    · cases h
+    · rename_i neg d hh m sec ms hs
+      obtain ⟨D, H, M, S, MS, hr, hwf, rfl, rfl, rfl, rfl, rfl⟩ := (Duration.split_iff _ _ _ _ _ _ _).mp hs
+      obtain ⟨rfl, hv⟩ := (Duration.arith_eq_some _ _ _ _ _ _ _).mp h
+      exact ⟨neg, D, H, M, S, MS, hr, hwf, rfl, (inI64_iff _).mpr hv⟩
+  · rintro ⟨neg, D, H, M, S, MS, hr, hwf, rfl, hin⟩
+    have := duration_parse_exact neg D H M S MS hwf
+    rw [← hr, String.ofList_toList, hin] at this
+    simpa using this
+
+/-- strings outside the declarative language are rejected -/
+theorem duration_parse_none_of_not_lang (s : String)
+    (h : ¬ ∃ neg D H M S MS, s.toList = Duration.render neg D H M S MS ∧ Duration.WF D H M S MS) :
+    Duration.parse s = none := by
+  cases hp : Duration.parse s with
+  | none => rfl
+  | some v =>
+    obtain ⟨neg, D, H, M, S, MS, a, b, _⟩ := (duration_parse_some_iff s v).mp hp
+    exact absurd ⟨neg, D, H, M, S, MS, a, b⟩ h
+
+/-- a component that does not fit a u64 (Rust: `parse::<u64>` fails) makes the literal fail -/
+theorem duration_parse_component_overflow (neg : Bool) (D H M S MS : Option (List Char))
+    (hwf : Duration.WF D H M S MS)
+    (hbig : Duration.u64Max < Duration.cval D ∨ Duration.u64Max < Duration.cval H ∨ Duration.u64Max < Duration.cval M ∨
+            Duration.u64Max < Duration.cval S ∨ Duration.u64Max < Duration.cval MS) :
+    Duration.parse (String.ofList (Duration.render neg D H M S MS)) = none := by
+  rw [duration_parse_exact neg D H M S MS hwf]
+  have : inI64 (durationExact neg D H M S MS) = false := by
+    rw [inI64_false_iff]
+    simp only [durationExact, Duration.exact]
+    have hu : Duration.u64Max = 18446744073709551615 := rfl
+    rw [hu] at hbig
+    cases neg <;> simp only [Bool.false_eq_true, if_false, if_true] <;> omega
+  rw [this]; rfl
+
+-- non-vacuity: extremes of the i64 range, ordering, `m` vs `ms`, near misses
+example : Duration.parse "1d2h3m4s5ms" = some 93784005 ∧ Duration.parse "-9223372036854775808ms" = some (-9223372036854775808) ∧
+    Duration.parse "9223372036854775808ms" = none ∧ Duration.parse "106751991167d7h12m55s807ms" = some 9223372036854775807 ∧
+    Duration.parse "106751991167d7h12m55s808ms" = none ∧ Duration.parse "1h1d" = none ∧ Duration.parse "-" = none ∧
+    Duration.parse "" = none ∧ Duration.parse "5ms" = some 5 ∧ Duration.parse "5m5ms" = some 300005 ∧
+    Duration.parse "18446744073709551616d" = none ∧ Duration.parse "1d1d" = none ∧ Duration.parse "1x" = none := by
+  decide +kernel
+example : Duration.WF (some "1".toList) none (some "30".toList) none (some "7".toList) ∧
+    durationExact true (some "1".toList) none (some "30".toList) none (some "7".toList) = -88200007 ∧
+    String.ofList (Duration.render true (some "1".toList) none (some "30".toList) none (some "7".toList)) = "-1d30m7ms" := by
+  decide +kernel
 
 end Cedar.C07
